@@ -552,6 +552,9 @@ func genChain(o hreg.Opts, p chainPlan, mutants bool) (out seqOut) {
 			if uint64(step.Slot)%2 == 0 || p.limits {
 				ownMs = append(ownMs, overLimitMutants(c, step, fs, rng)...)
 			}
+			if uint64(step.Slot)%2 == 1 || p.limits {
+				ownMs = append(ownMs, compensatingMutants(c, step, fs)...)
+			}
 			for i := range ownMs {
 				own[ownMs[i].Label] = true
 			}
